@@ -18,7 +18,7 @@
    (2) [c17_thread_protocol]: for every thread, between invocation and return of each of its
        calls (in program order) there is exactly one effect event, carrying the arguments of
        that call; no event of a thread that is not inside a call changes the word. *)
-From Got Require Import Base Atomics AtomicsProofs MutexWord MutexWordProofs.
+From Got Require Import Base Atomics AtomicsProofs MutexWord MutexWordProofs MutexExclProofs.
 Local Open Scope Z_scope.
 
 (* ---------------------------------------------------------------- Flag / AddIf64 *)
@@ -144,6 +144,86 @@ Theorem c17_trylock_call_spec :
     end.
 Proof. exact mx_trylock_call_spec. Qed.
 Print Assumptions c17_trylock_call_spec.
+
+(* ---------------------------------------------------------------- mutual exclusion (re-modelled sync.Mutex) *)
+
+(* PARTIAL in this sense: Lock / Unlock of sync.Mutex are runtime code without yield points; they
+   are re-modelled from the Go 1.23 source (fast path, lockSlow with the spin branch that sets
+   mutexWoken, normal and starvation mode, hand-off AddInt32, unlockSlow, the semaphore as a
+   token counter; spin / 1 ms decisions as per-call oracle bits) and NOT stepped against the
+   implementation.  TryLock's three steps in that model are the record-level image of
+   mx_trylock_step, the function that IS stepped against loom/mutex.go
+   (the c17_trylock_rec_refines theorems).  throw/fatal are dead ends of the model (not proved unreachable:
+   that needs the waiter-count accounting, which exclusion does not).
+
+   Over every set of programs of Lock (any oracle bits) / TryLock / Unlock and every schedule:
+   the number of threads between a successful acquire -- by the Lock fast path, the lockSlow
+   CAS, the starvation hand-off, or either CAS of TryLock -- and their Unlock equals the
+   locked bit of the word, hence is at most one.  So TryLock never returns true while another
+   Lock/TryLock holder has not unlocked, and a TryLock holder is released by the same Unlock
+   steps as any other (the model has one holder flag and one Unlock). *)
+Theorem c17_mutex_exclusion :
+  forall progs sched,
+    let s := mx_final (mx_init progs) sched in
+    mx_holders s = (if xl (xword s) then 1 else 0)%nat /\ (mx_holders s <= 1)%nat.
+Proof. exact mx_mutex_exclusion. Qed.
+Print Assumptions c17_mutex_exclusion.
+
+(* the hand-off addition always happens on a word with locked = 0 and starving = 1 *)
+Theorem c17_handoff_wellformed :
+  forall progs sched i th e,
+    let s := mx_final (mx_init progs) sched in
+    nth_error (xthreads s) i = Some th -> xpc th = XLHand e ->
+    xl (xword s) = false /\ xs (xword s) = true.
+Proof. exact mx_handoff_wellformed. Qed.
+Print Assumptions c17_handoff_wellformed.
+
+(* the TryLock steps of the thread model are mx_trylock_step on the encoded word *)
+Theorem c17_trylock_rec_refines_cas1 :
+  forall r, mx_trylock_step (mx_enc r) TLCas1 =
+    if mx_is_zero r then (mx_enc (mx_set_l r true), TLRet true) else (mx_enc r, TLCont TLLoad).
+Proof. exact mx_trylock_cas1_refines. Qed.
+Print Assumptions c17_trylock_rec_refines_cas1.
+
+Theorem c17_trylock_rec_refines_load :
+  forall r, mx_trylock_step (mx_enc r) TLLoad =
+    if (xl r || xs r || xk r)%bool then (mx_enc r, TLRet false) else (mx_enc r, TLCont (TLCas2 (mx_enc r))).
+Proof. exact mx_trylock_load_refines. Qed.
+Print Assumptions c17_trylock_rec_refines_load.
+
+Theorem c17_trylock_rec_refines_cas2 :
+  forall r old, xl old = false -> xk old = false -> xs old = false ->
+    mx_trylock_step (mx_enc r) (TLCas2 (mx_enc old)) =
+    if mx_w_eqb r old then (mx_enc (mx_set_l old true), TLRet true) else (mx_enc r, TLRet false).
+Proof. exact mx_trylock_cas2_refines. Qed.
+Print Assumptions c17_trylock_rec_refines_cas2.
+
+(* non-vacuity of the exclusion model.  Run 1: thread 0 takes the lock by TryLock, two Lock
+   callers queue, are woken one after the other by Unlock (normal mode) and acquire through
+   the lockSlow CAS.  Run 2: a waiter woken in normal mode loses the race, finds it has waited
+   too long, switches the mutex to starvation mode, and gets the lock by hand-off (XEAcq 2);
+   the word ends as 0 with no token left. *)
+Example c17_exclusion_nonvacuous :
+  let progs := [[XTryLock; XUnlock]; [XLock true true; XUnlock]; [XLock false false; XUnlock]] in
+  let sched := [0;0; 1;1;1;1;1; 2;2;2;2; 0;0;0;0;0; 2;2;2;2;2;2; 1;1;1;1;1;1; 2;2;2;2;2;2;2; 1;1;1;1;1;1]%nat in
+  let tr := mx_trace (mx_init progs) sched in
+  nth_error tr 1 = Some (0%nat, XEAcq 3) /\ nth_error tr 18 = Some (2%nat, XEAcq 1) /\
+  nth_error tr 37 = Some (1%nat, XEAcq 1) /\ nth_error tr 22 = Some (1%nat, XEBlocked) /\
+  let progs2 := [[XLock false false; XUnlock; XLock false false; XUnlock]; [XLock false true; XUnlock]] in
+  let sched2 := [0;0; 1;1;1;1; 0;0;0;0; 0;0;0;0; 1;1;1; 0;0;0; 1;1;1; 1;1]%nat in
+  map snd (mx_trace (mx_init progs2) sched2) =
+    [XEInv; XEAcq 0; XEInv; XEInt; XEInt; XEInt; XEInv; XEUnlocked; XEInt; XERet; XEInv; XEInt; XEInt;
+     XEAcq 1; XEInt; XEInt; XEInt; XEInv; XEUnlocked; XERet; XEInt; XEInt; XEAcq 2; XEInv; XEUnlocked] /\
+  xword (mx_final (mx_init progs2) sched2) = mx_zero /\ xsema (mx_final (mx_init progs2) sched2) = 0%nat.
+Proof.
+  cbn zeta.
+  split; [vm_compute; reflexivity|].
+  split; [vm_compute; reflexivity|].
+  split; [vm_compute; reflexivity|].
+  split; [vm_compute; reflexivity|].
+  split; [vm_compute; reflexivity|].
+  split; vm_compute; reflexivity.
+Qed.
 
 (* ---------------------------------------------------------------- non-vacuity *)
 
